@@ -89,11 +89,28 @@ def run(ctx: Ctx, rep: Report) -> None:
     if fut is None or tr_attr is None:
         raise AnalysisError("protocol: future / transport attributes not recognised")
 
-    def release_nodes(fn: FuncInfo):
+    def releasing_method(meth: FuncInfo, depth: int = 0) -> bool:
+        """A wrapper counts as a release when, with a transport present, all of its paths call close()/abort()."""
+        if depth > 2:
+            return False
+        mcfg = ctx.cfg(meth)
+        rel = {n.id for n in release_nodes(meth, depth + 1)}
+        if not rel:
+            return False
+        outs = simulate(mcfg, transport_env)
+        return bool(outs) and all(any(t.id in rel for t in o.trail) for o in outs)
+
+    def release_nodes(fn: FuncInfo, depth: int = 0):
         cfg = ctx.cfg(fn)
         out = []
         for node in own_nodes(fn.node):
-            if isinstance(node, ast.Call) and isinstance(node.func, ast.Attribute) and node.func.attr in ("close", "abort") and is_self_attr(node.func.value, tr_attr):
+            if not isinstance(node, ast.Call) or not isinstance(node.func, ast.Attribute):
+                continue
+            direct = node.func.attr in ("close", "abort") and is_self_attr(node.func.value, tr_attr)
+            wrapped = False
+            if not direct and isinstance(node.func.value, ast.Name) and node.func.value.id == "self" and node.func.attr in proto.methods and proto.methods[node.func.attr] is not fn:
+                wrapped = releasing_method(proto.methods[node.func.attr], depth)
+            if direct or wrapped:
                 n = cfg_node_of(cfg, node)
                 if n is not None:
                     out.append(n)
